@@ -3,7 +3,7 @@ from .. import cg, ex, lib
 from ..core import where
 from ..ir import AnalysisBroken
 
-UNITS = ['src/smpi/mpi/smpi_datatype.cpp', 'src/smpi/mpi/smpi_datatype_derived.cpp']
+UNITS = ['src/smpi/mpi/smpi_datatype.cpp', 'src/smpi/mpi/smpi_datatype_derived.cpp', 'src/smpi/bindings/smpi_pmpi_type.cpp']
 D = 'simgrid::smpi::Datatype'
 EXPLANATION = ('For Datatype::create_{indexed,hindexed,struct}: every update of the lb / ub accumulator is an extremum idiom `if (e < lb) lb = e` / '
                '`if (e > ub) ub = e` whose stored value is the compared value (so the bound kept is the min / max over the blocks of exactly the '
@@ -182,6 +182,7 @@ def run(ctx):
                       '' if okc else 'the conversion uses size(): wrong as soon as the element type has holes or was resized', key='R4|%s|bytes per element' % cls)
     ctx.require(n4 >= 12, 'R4', 'only %d cursor updates / conversions found' % n4)
     run_units(ctx, P, A)
+    run_subarray(ctx, P, A)
     return EXPLANATION
 
 
@@ -220,3 +221,93 @@ def run_units(ctx, P, A):
                       key='R5|%s|%s %s %s' % (r['fn'].replace(DT, ''), r['a'][:50], r['what'], r['b'][:50]))
     for fq in ('create_vector', 'create_hvector', 'create_indexed', 'create_hindexed', 'create_struct'):
         ctx.require(any(r['fn'] == DT + fq and 'ub' in r['a'] + r['b'] for r in Dm.decided + Dm.conflicts), 'R5', 'no decided site mentions ub in %s' % fq)
+
+
+def run_subarray(ctx, P, A):
+    """R6: a subarray type is resized to lb 0 and the extent of the whole array (MPI 4.1.3), in the general constructor and in the one-dimensional shortcut of the binding"""
+    ctx.rule('R6', 'every construction of a subarray type ends with create_resized(_, 0, E, newtype) where E is the extent of the element type times the number of elements of '
+             'the whole array (every entry of array_of_sizes reaches E: a product accumulated over the dimensions, or array_of_sizes[0] when there is one dimension)', 2)
+    RES = D + '::create_resized'
+
+    def flow(f):
+        """variable -> terms assigned to it anywhere in f (compound assignments included), and whether one of them is a multiplicative update inside a loop"""
+        v = A.view(f)
+        defs, loopmul = {}, set()
+        inloop = set()
+        for h in v.loop_heads():
+            inloop |= set(cg.natural_loop(v, h['id']))
+        for b in v.blocks:
+            for eid in b.get('e', []):
+                for e in v.events_of(eid):
+                    if e.kind == 'assign' and e.lhs[0] == 'var':
+                        defs.setdefault(e.lhs, []).append(e.rhs)
+                        if e.op == '*=' and b['id'] in inloop:
+                            loopmul.add(e.lhs)
+        return v, defs, loopmul
+
+    def closure(t, defs):
+        """terms that flow into t through the local definitions"""
+        seen, todo, out = set(), [t], []
+        while todo:
+            x = todo.pop()
+            for y in ex.subterms(x):
+                out.append(y)
+                if y[0] == 'var' and y not in seen:
+                    seen.add(y)
+                    todo += defs.get(y, [])
+        return out
+
+    def decide(f, label, one_dim):
+        v, defs, loopmul = flow(f)
+        sizes_p = [('var', 'parm', p_['n'], i) for i, p_ in enumerate(f['params']) if p_['n'] == 'array_of_sizes']
+        if not sizes_p:
+            raise AnalysisBroken('%s: parameter array_of_sizes not found' % label)
+        calls = [e for eid in range(len(f['elems'])) for e in v.events_of(eid) if e.kind == 'call' and e.q == RES]
+        ctx.check(len(calls) >= 1, 'R6', '%s: the type is resized' % label, where(f), '%d create_resized call(s)' % len(calls), key='R6|%s|resized' % label)
+        for e in calls:
+            lbv, extv = e.args[1], e.args[2]
+            while lbv[0] in ('cast', 'conv'):
+                lbv = lbv[2]
+            flows = closure(extv, defs)
+            has_ext = any(x[0] == 'call' and isinstance(x[1], str) and x[1] == D + '::get_extent' for x in flows)
+            carriers = [x for x in flows if x[0] == 'idx' and any(y[0] == 'var' and y[2] == 'array_of_sizes' for y in ex.subterms(x))]
+            has_sizes = bool(carriers) or any(y[0] == 'var' and y[2] == 'array_of_sizes' for y in flows)
+            prod = one_dim or any(x in loopmul for x in flows if x[0] == 'var')
+            top = extv
+            while top[0] in ('cast', 'conv'):
+                top = top[2]
+            is_product = top[0] == 'bin' and top[1] == '*' or (top[0] == 'var' and any(d[0] == 'bin' and d[1] == '*' for d in defs.get(top, [])))
+            ok = lbv == ('int', 0) and has_ext and has_sizes and prod and is_product
+            ctx.check(ok, 'R6', '%s: resized to lb 0 and extent = elements of the whole array x extent of the element type' % label, where(f, e.line),
+                      'create_resized(_, %s, %s, _): extent of the element type %s, array_of_sizes %s%s' % (ex.pretty(lbv), ex.pretty(extv)[:80], 'reaches it' if has_ext else 'does not reach it',
+                                                                                                      'reaches it' if has_sizes else 'does not reach it',
+                                                                                                      '' if prod else ', but no product is accumulated over the dimensions'),
+                      key='R6|%s|extent of the whole array' % label)
+    f = P.fn(D + '::create_subarray')
+    decide(f, 'Datatype::create_subarray', False)
+    g = [x for x in P.fns.values() if x['q'] == 'PMPI_Type_create_subarray' and x.get('blocks')]
+    if not g:
+        raise AnalysisBroken('PMPI_Type_create_subarray not found')
+    g = g[0]
+    gv = A.view(g)
+    # the one-dimensional shortcut: the paths on which ndims == 1 holds and that do not reach Datatype::create_subarray
+    short = 0
+    bad = None
+    for p_ in gv.paths(max_visits=2, max_paths=20000):
+        if p_.exit in ('noreturn', 'cut', 'throw'):
+            continue
+        evs = gv.path_events(p_)
+        one = any(e.kind == 'branch' and e.pol and e.atom[0] == 'bin' and e.atom[1] == '==' and e.atom[2][0] == 'var' and e.atom[2][2] == 'ndims' and e.atom[3] == ('int', 1) for e in evs)
+        if not one or any(e.kind == 'call' and e.q == D + '::create_subarray' for e in evs):
+            continue
+        builds = [e for e in evs if e.kind == 'call' and e.q.startswith(D + '::create_')]
+        if not builds:
+            continue
+        short += 1
+        if builds[-1].q != RES:
+            bad = bad or builds[-1]
+    if short:
+        ctx.check(bad is None, 'R6', 'PMPI_Type_create_subarray, one dimension: the last constructor called is create_resized', where(g, bad.line if bad else None),
+                  'the type is returned as built by %s' % bad.q.rsplit('::', 1)[-1] if bad else '%d path(s)' % short, key='R6|PMPI_Type_create_subarray|one dimension resized')
+        if bad is None:
+            decide(g, 'PMPI_Type_create_subarray (one dimension)', True)
